@@ -196,6 +196,17 @@ func genMetrics(t *rapid.T) (*afm.Metrics, map[string]bool) {
 	m.IsFixedPitch = rapid.Bool().Draw(t, "fixed")
 	nk := rapid.IntRange(0, 6).Draw(t, "nkern")
 	for i := 0; i < nk; i++ {
+		if i > 0 && rapid.IntRange(0, 3).Draw(t, "kernrepeat") == 0 {
+			// an earlier record again: same pair with the same or another
+			// adjustment (the list is kept as it is, in order)
+			old := m.Kern[rapid.IntRange(0, i-1).Draw(t, "kernrepeatof")]
+			kp := &afm.KernPair{Left: old.Left, Right: old.Right, Adjust: old.Adjust}
+			if rapid.Bool().Draw(t, "kernnewadj") {
+				kp.Adjust = funit.Int16(genInt16(t, "kadj2"))
+			}
+			m.Kern = append(m.Kern, kp)
+			continue
+		}
 		m.Kern = append(m.Kern, &afm.KernPair{Left: genToken(t, "kl"), Right: genToken(t, "kr"), Adjust: funit.Int16(genInt16(t, "kadj"))})
 	}
 	if nk > 0 {
